@@ -9,6 +9,15 @@ is not an engine load failure.
 """
 import json, os, shutil, subprocess, sys, tempfile
 root = os.path.dirname(os.path.dirname(os.path.abspath(__file__)))
+PRE = json.load(open(os.path.join(root, "checker", "audit", "pre.json")))
+def apply_pre(m, new):
+    p = PRE.get(m.get("pre") or "")
+    if not p: return new
+    if p["kind"] == "append": return new + p["text"]
+    if p["kind"] == "replace": 
+        assert new.count(p["find"]) == 1, (m["name"], "pre pattern")
+        return new.replace(p["find"], p["replace"])
+    return new
 muts = json.load(open(os.path.join(root, "checker", "audit", "mutants.json")))
 want = set(sys.argv[1:])
 allprops = "--all" in want
@@ -26,8 +35,7 @@ for m in muts:
         if src.count(m["find"]) != 1:
             print(f"SKIP   {m['name']}: pattern occurs {src.count(m['find'])} times"); ok = False; continue
         new = src.replace(m["find"], m["replace"])
-        if m.get("pre") == "import-time":
-            new = new.replace('import (\n', 'import (\n\t"time"\n', 1)
+        new = apply_pre(m, new)
         open(path, "w").write(new)
         props = m["expect"]
         detected, outs = [], []
